@@ -42,12 +42,12 @@ def repository(backend, concurrent=2, cache=None):
     return Repository(backend, concurrent=concurrent, quiet=True, cache_directory=cache)
 
 
-def run_init(backend, *, password, settings, concurrent=2, key_path=None):
+def run_init(backend, *, password, settings, concurrent=2, key_path=None, cache=None):
     """-> (key bytes | None, config dict, captured stdout)"""
     import copy
 
     async def main():
-        repo = repository(backend, concurrent)
+        repo = repository(backend, concurrent, cache)
         return await repo.init(password=password, settings=copy.deepcopy(settings), key_output_path=key_path)
     with capture() as c:
         res = asyncio.run(main())
